@@ -18,7 +18,8 @@ PROPERTY = "C19"
 RULE = ("tables (1-12 rows; float with NaN, int, clearly non-numeric ASCII string columns; names [A-Za-z][A-Za-z0-9_]{0,7}, unique ignoring "
         "case, added in generated (non-sorted) order) and images (2-3-d float/int32/int64/int16 components) x every exporter of "
         "glue.config.data_exporter whose format has a reader (CSV, FITS table, VO table, HDF5, gridded FITS) x whole dataset or subset "
-        "(empty, proper, full); loaded back with load_data; and a collection of loaded files saved by reference and restored. "
+        "(empty, proper, full), optionally with a derived attribute and with the exporter's components= argument restricting what is "
+        "written; loaded back with load_data; and a collection of loaded files saved by reference and restored. "
         "Non-trivial = proper subset, >=1 NaN and >=1 string column (tables) / >=2 components (images); distinct by spec hash.")
 ASSUMPTIONS = [
     "what each format can represent is fixed up front: gridded FITS keeps numeric components only, one HDU (and one loaded dataset) each, named by the upper-cased label; FITS/VO tables and CSV keep names and text; HDF5 stores text as ASCII bytes (compared after decoding) and blanks masked integer pixels with 0",
@@ -73,6 +74,18 @@ def fn_table(spec, rec):
     d = Data(label="tab")
     for col in spec["cols"]:
         d.add_component(col_array(col), col["name"])
+    cols = list(spec["cols"])
+    firstnum = [c for c in spec["cols"] if c["kind"] != "str"]
+    if spec.get("derived") and firstnum and not any(c["name"].lower() == "der_x" for c in spec["cols"]):
+        # derived attributes are exported after the stored ones, with their computed values
+        d.add_component(d.id[firstnum[0]["name"]] * 2 + 1, "der_x")
+        cols.append({"name": "der_x", "kind": "float", "vals": (np.array(firstnum[0]["vals"], dtype=float) * 2 + 1).tolist()})
+    kw = {}
+    if spec.get("only") is not None:
+        keep = sorted({k % len(cols) for k in spec["only"]})
+        kw["components"] = [d.id[cols[k]["name"]] for k in keep]
+        cols = [cols[k] for k in keep]
+    spec = dict(spec, cols=cols)
     dc = DataCollection([d])
     mask = np.array(spec["mask"], dtype=bool) if spec["mask"] is not None else None
     obj = d
@@ -84,7 +97,7 @@ def fn_table(spec, rec):
     try:
         path = os.path.join(tmp, "out." + ext)
         try:
-            ex[fn_name](path, obj)
+            ex[fn_name](path, obj, **kw)
         except Exception as e:  # noqa
             if blame(e)[0] != "glue" and "astropy" not in repr(type(e)):
                 raise
@@ -151,6 +164,10 @@ def fn_table(spec, rec):
     rec.label("format:" + spec["format"], "subset:" + ("none" if mask is None else ("full" if mask.all() else "proper")))
     if spec["by_reference"]:
         rec.label("by-reference")
+    if kw:
+        rec.label("components-argument")
+    if any(c["name"] == "der_x" for c in cols):
+        rec.label("derived-component-exported")
 
 
 def fn_image(spec, rec):
@@ -166,6 +183,17 @@ def fn_image(spec, rec):
         arr = np.array(comp["vals"][:n], dtype=comp["dtype"]).reshape(shape)
         arrays[comp["name"]] = arr
         d.add_component(arr, comp["name"])
+    comps = list(spec["comps"])
+    if spec.get("derived") and not any(c["name"].lower() == "der_x" for c in comps):
+        d.add_component(d.id[comps[0]["name"]] * 2 + 1, "der_x")
+        arrays["der_x"] = arrays[comps[0]["name"]] * 2 + 1
+        comps.append({"name": "der_x", "dtype": str(arrays["der_x"].dtype)})
+    kw = {}
+    if spec.get("only") is not None:
+        keep = sorted({k % len(comps) for k in spec["only"]})
+        kw["components"] = [d.id[comps[k]["name"]] for k in keep]
+        comps = [comps[k] for k in keep]
+    spec = dict(spec, comps=comps)
     dc = DataCollection([d])
     mask = np.array(spec["mask"][:n], dtype=bool).reshape(shape) if spec["mask"] is not None else None
     obj = d
@@ -177,7 +205,7 @@ def fn_image(spec, rec):
     try:
         path = os.path.join(tmp, "img." + ext)
         try:
-            ex[fn_name](path, obj)
+            ex[fn_name](path, obj, **kw)
             back = load_data(path)
         except Exception as e:  # noqa
             raise Mismatch("image-roundtrip-raises/%s/%s" % (spec["format"], type(e).__name__), repr(e))
@@ -216,6 +244,10 @@ def fn_image(spec, rec):
     rec.nt(mask is not None and mask.any() and not mask.all() and len(spec["comps"]) >= 2)
     rec.label("format:" + spec["format"], "subset:" + ("none" if mask is None else ("empty" if not mask.any() else ("full" if mask.all() else "proper"))))
     rec.label("dtypes:" + "+".join(sorted({c["dtype"] for c in spec["comps"]})))
+    if kw:
+        rec.label("components-argument")
+    if any(c["name"] == "der_x" for c in comps):
+        rec.label("derived-component-exported")
 
 
 # --------------------------------------------------------------------------- generators
@@ -248,7 +280,9 @@ def table_cases(draw):
         mask = [False] * n
     else:
         mask = draw(st.lists(st.booleans(), min_size=n, max_size=n))
-    return {"format": draw(st.sampled_from(sorted(TABLE_FORMATS))), "n": n, "cols": cols, "mask": mask, "by_reference": draw(st.integers(0, 3)) == 0}
+    only = draw(st.one_of(st.none(), st.none(), st.lists(st.integers(0, 5), min_size=1, max_size=3)))
+    return {"format": draw(st.sampled_from(sorted(TABLE_FORMATS))), "n": n, "cols": cols, "mask": mask, "by_reference": draw(st.integers(0, 3)) == 0,
+            "derived": draw(st.booleans()), "only": only}
 
 
 @st.composite
@@ -267,7 +301,8 @@ def image_cases(draw):
         comps.append({"name": nm, "dtype": dt, "vals": vals})
     m = draw(st.sampled_from(["none", "proper", "proper", "full", "empty"]))
     mask = None if m == "none" else ([True] * n if m == "full" else ([False] * n if m == "empty" else draw(st.lists(st.booleans(), min_size=n, max_size=n))))
-    return {"format": draw(st.sampled_from(sorted(IMAGE_FORMATS))), "shape": shape, "comps": comps, "mask": mask}
+    only = draw(st.one_of(st.none(), st.none(), st.lists(st.integers(0, 5), min_size=1, max_size=3)))
+    return {"format": draw(st.sampled_from(sorted(IMAGE_FORMATS))), "shape": shape, "comps": comps, "mask": mask, "derived": draw(st.booleans()), "only": only}
 
 
 # --------------------------------------------------------------------------- container files holding several datasets
